@@ -170,6 +170,10 @@ CHECKS = {
         "level": "fault_enumeration",
         "quick": {"shards": 10, "budget_s": 60, "min_evaluations": 2000},
         "thorough": {"shards": 14, "budget_s": 600, "min_evaluations": 50000},
+        "san_stages": [
+            {"kind": "miri", "tiers": ["thorough"], "shards": 8,
+             "budget_s": 180, "mix": "queue"},
+        ],
         "rule": (
             "Part A: seeded sequences (5-40 steps) of schedule (all five "
             "modes, explicit/implicit times around now), claim, finish, "
@@ -519,6 +523,12 @@ CHECKS = {
         "level": "exploration",
         "quick": {"shards": 12, "budget_s": 60, "min_evaluations": 200},
         "thorough": {"shards": 14, "budget_s": 900, "min_evaluations": 10000},
+        "san_stages": [
+            {"kind": "miri", "tiers": ["thorough"], "shards": 14,
+             "budget_s": 240, "mix": "toy"},
+            {"kind": "tsan", "tiers": ["thorough"], "shards": 6,
+             "budget_s": 150},
+        ],
         "rule": (
             "(a) toy aggregate whose state is the append-only list of "
             "unique ids on the bare AggregateStore: 2-8 OS threads x 3-10 "
@@ -758,6 +768,10 @@ CHECKS = {
         "level": "exploration",
         "quick": {"shards": 8, "budget_s": 70, "min_evaluations": 50},
         "thorough": {"shards": 14, "budget_s": 900, "min_evaluations": 2000},
+        "san_stages": [
+            {"kind": "tsan", "tiers": ["thorough"], "shards": 4,
+             "budget_s": 150},
+        ],
         "rule": (
             "Rounds on the REAL thread pool (num_threads 4) and the REAL "
             "scheduler thread (StartupManager::run_scheduler + promote): a "
